@@ -321,8 +321,9 @@ def r3_the_check(cx):
     sub4 = False
     for blk in b.blocks:
         for s in blk["s"]:
-            if s["k"] == "assign" and s["rv"]["k"] == "bin" and s["rv"]["op"] in ("Sub", "SubWithOverflow") and op_const_val(s["rv"]["b"]) == ref.REF["sizes"]["crc"]:
-                sub4 = True
+            if s["k"] == "assign" and s["rv"]["k"] == "bin" and s["rv"]["op"] in ("Sub", "SubWithOverflow") and (
+                    op_const_deep(b, s["rv"]["b"]) == ref.REF["sizes"]["crc"] or b.derives_from_call(s["rv"]["b"], r"block::BlockCheck::size$", through_calls=False)):
+                sub4 = True     # `len - 4` or `len - BlockCheck::Crc32.size()` (the size table is checked in C14-R1)
     uo = b.origin_calls(upd[0][1]["args"][1])
     ro = b.origin_calls(rd[0][1]["args"][0])
     rng_to = any(call_is(t, r"RangeTo<usize>") for _, t in uo)
